@@ -34,6 +34,10 @@ ops (one line, words separated by blanks; bytes as hex, "-" = empty):
   encz HDR REQ                                → the same built with the toy compressor configured (FrameWrite.encodeReqC (some toyEnc))
   decz <framehex> HDR REQ                     → spec-backed: the compression-aware specification decoder (FrameSpec.decodeReqC toyDec)
                                                  on the real bytes against what was asked for, answers as for `dec`
+  sout <refused|framehex> <n> <stmthex>* HDR REQ → spec-backed, session tier: what happened to REQ (a BATCH stated through the
+                                                 Session API) on a real connection — refused with nothing on the wire, or the
+                                                 frame the peer received — judged by the specification (FrameWrite.judge):
+                                                 `ok` | `refused-ok` | `gap` | `mismatch:<what>`
   hs CFG AUTH PLAN ANSWERS FRAMES             → handshake tier, SPECIFICATION: the requests due for (CFG, AUTH, PLAN) when the
                                                  peer answers ANSWERS (Handshake.specReqs) are compared, one by one, with what
                                                  the spec decoder reads out of FRAMES (the frames the peer received from the real
@@ -403,6 +407,15 @@ def hsModel (l : HsLine) (order : List Bytes) (streams : List Int) : String :=
 
 end Hs
 
+def verdictName : Verdict → String
+  | .ok => "ok"
+  | .refusedOk => "refused-ok"
+  | .gap => "gap"
+  | .refusedExpressible => "mismatch:refused-expressible"
+  | .undecodable => "mismatch:undecodable"
+  | .differs => "mismatch:request"
+  | .sentInexpressible => "mismatch:sent-inexpressible"
+
 def step (_ : Unit) (ws : List String) : Unit × String :=
   ((), match ws with
   | "enc" :: r =>
@@ -456,6 +469,19 @@ def step (_ : Unit) (ws : List String) : Unit × String :=
         else if canonReq d.req ≠ canonReq want then "mismatch:request"
         else "ok"
     | _, _ => "bad-op"
+  | "sout" :: o :: r =>
+    -- statement texts are for the replay on the real code only
+    match pCounted pHex r with
+    | some (_, r) =>
+      match pHdrReq r with
+      | some ((h, g), []) =>
+        let outcome : Option Outcome :=
+          if o == "refused" then some Outcome.refused else (parseHex o).map Outcome.sent
+        match outcome with
+        | none => "bad-op"
+        | some oc => verdictName (judge (fun a b => canonReq a == canonReq b) h.v h.tracing (ask now0 g) oc)
+      | _ => "bad-op"
+    | none => "bad-op"
   | "hs" :: r =>
     match pHsLine r with
     | some (l, r) =>
